@@ -589,6 +589,16 @@ package yang
 //@   only before:
 //@   ensures ms.Modules == old(ms.Modules) && (forall k string :: old(ms.Modules[k]) != nil ==> ms.Modules[k] == old(ms.Modules[k]))   -- not claimed (only): assumed at call sites
 //@   before[per-run-state-is-reset-before-anything-of-a-run-reads-it] (*Modules).process ms.mergedSubmodule != nil && len(ms.mergedSubmodule) == 0 && ms.entryCache != nil && len(ms.entryCache) == 0
+// process links every module of the set, whatever key it is filed under (a
+// module with a revision is filed under two keys, an older revision of a name
+// under its full name only): all of them are collected, and every collected
+// module is handed to include.
+//@ func (*Modules).process props C13 C18
+//@   only loop1/ loop2/
+//@   loop 1
+//@     invariant[every-loaded-module-is-collected] forall k string :: visited(k) ==> (exists i int :: 0 <= i && i < len(mods) && mods[i] == ms.Modules[k])
+//@   loop 2
+//@     body_ensures[every-collected-module-is-linked] calls("(*Modules).include") > old(calls("(*Modules).include"))
 // C18: what a run starts from. ClearEntryCache leaves an empty cache;
 // forgetResolvedTypes (reflection over the syntax trees, assumed) writes the
 // resolved-type fields only.
